@@ -29,6 +29,28 @@ Proof. exact lookup_remove_same. Qed.
 Theorem C18_close_frame : forall e id j, j <> id -> lookup (remove e id) j = lookup e j.
 Proof. exact lookup_remove_other. Qed.
 
+(* the emitter keeps four handler families per channel id (messages, process start, completion, error);
+   the statements above hold in each of them for every history of registrations of any kind, closes and events,
+   and closing a channel silences it in all of them, whatever kinds of handlers it had registered *)
+Theorem C18_invoked_iff_every_kind :
+  forall ops k m id, let h := fst (hrun hub0 ops) in
+    In id (dispatch (hget h k) m) <-> exists o, lookup (hget h k) id = Some o /\ is_match o m = true.
+Proof. exact hub_invoked_iff. Qed.
+Theorem C18_no_duplicate_delivery_every_kind : forall ops k m, NoDup (dispatch (hget (fst (hrun hub0 ops)) k) m).
+Proof. exact hub_no_duplicate. Qed.
+Theorem C18_closed_channel_is_silent_for_every_kind :
+  forall ops id k m, ~ In id (dispatch (hget (hremove (fst (hrun hub0 ops)) id) k) m).
+Proof. intros ops id k m. apply hub_closed_is_silent. apply (hub_reachable_ok ops hub0 hub0_ok). Qed.
+Theorem C18_close_frame_every_kind : forall h id j k, j <> id -> lookup (hget (hremove h id) k) j = lookup (hget h k) j.
+Proof. exact hub_close_frame. Qed.
+Theorem C18_register_leaves_other_kinds : forall h k id o k', k' <> k -> hget (fst (hstep h (HOn k id o))) k' = hget h k'.
+Proof. exact hub_register_other_kinds. Qed.
+Example C18_example_kinds :
+  let wf_done := {| m_type := [119]; m_state := [99]; m_tag := []; m_model_tag := []; m_key := []; m_uses := [] |} in
+  let '(h, ds) := hrun hub0 [HOn HComplete 1 default_opts; HOn HMsg 2 default_opts; HEmit HComplete wf_done; HEmit HMsg wf_done;
+                             HClose 1; HEmit HComplete wf_done; HEmit HMsg wf_done] in
+  ds = [[]; []; [1]; [2]; []; []; [2]].
+Proof. vm_compute. reflexivity. Qed.
 Example C18_example :
   let act_created := {| m_type := [97;99;116]; m_state := [99]; m_tag := []; m_model_tag := [116;49]; m_key := [107;49]; m_uses := [] |} in
   let o1 := {| o_type := [GAlt [[GLit 115]; [GLit 97; GLit 99; GLit 116]]]; o_state := [GLit 99; GStar]; o_tag := [GLit 116; GAny]; o_key := [GClass true [(97, 99)]; GStar]; o_uses := [GStar] |} in
@@ -36,6 +58,11 @@ Example C18_example :
   ds = [[]; []; [1; 2]; []; []; [1]].
 Proof. vm_compute. reflexivity. Qed.
 
+Print Assumptions C18_invoked_iff_every_kind.
+Print Assumptions C18_no_duplicate_delivery_every_kind.
+Print Assumptions C18_closed_channel_is_silent_for_every_kind.
+Print Assumptions C18_close_frame_every_kind.
+Print Assumptions C18_register_leaves_other_kinds.
 Print Assumptions C18_invoked_iff.
 Print Assumptions C18_no_duplicate_delivery.
 Print Assumptions C18_default_receives_all.
